@@ -33,7 +33,10 @@ RULE_ADDED = (
               ' '
               'Round 8: certifier elements whose value is a public key followed or preceded by '
               'extra bytes, genuinely signed; one key in eight has a coordinate beginning or en'
-              'ding like an encoding marker (00/02/03/04). ')
+              'ding like an encoding marker (00/02/03/04). '
+              ' '
+              'Round 9: signatures crafted to a chosen total DER length (64, 65, 63, 9..72 byte'
+              "s) by solving for the certifier's key. ")
 RULE = RULE + " " + RULE_ADDED.strip()
 ASSUMPTIONS = [
     "oracle: pv/oracle/certv1.py (own secp256k1 arithmetic, ECDSA by cryptography/OpenSSL); "
